@@ -143,4 +143,52 @@ theorem filt_axpy (idx : List Nat) (a : Rat) (u v : Vec) (h : u.length = v.lengt
   simp only [List.range_eq_range']
   exact filt_aux_axpy idx a u v 0 h
 
+/-! ### vanishing corrections (the guarded step length of `cgcOmega`) -/
+
+theorem cgcOmega_zero (num : Rat) : cgcOmega num 0 = 1 := by simp [cgcOmega]
+
+theorem cgcOmega_of_ne (num den : Rat) (h : den ≠ 0) : cgcOmega num den = num / den := by
+  simp [cgcOmega, h]
+
+theorem dot_zero_right (x : Vec) (n : Nat) : dot x (List.replicate n 0) = 0 := by
+  induction x generalizing n with
+  | nil => exact dot_nil_left _
+  | cons a x ih =>
+    cases n with
+    | zero => exact dot_nil_right _
+    | succ n => rw [List.replicate_succ, dot_cons, ih n]; ring
+
+theorem dot_zero_left (x : Vec) (n : Nat) : dot (List.replicate n 0) x = 0 := by
+  rw [dot_comm, dot_zero_right]
+
+theorem mulVec_zero (m : Mat) (n : Nat) : mulVec m (List.replicate n 0) = List.replicate m.length 0 := by
+  induction m with
+  | nil => rfl
+  | cons r m ih =>
+    simp only [mulVec, List.map_cons, List.length_cons, List.replicate_succ] at ih ⊢
+    rw [ih, dot_zero_right]
+
+theorem filt_aux_zero (idx : List Nat) (k n : Nat) :
+    List.zipWith (fun i x => if idx.contains i then (0 : Rat) else x) (List.range' k n) (List.replicate n 0)
+      = List.replicate n 0 := by
+  induction n generalizing k with
+  | zero => rfl
+  | succ n ih =>
+    simp only [List.range'_succ, List.replicate_succ, List.zipWith_cons_cons, ih (k + 1)]
+    congr 1
+    split <;> rfl
+
+theorem filt_zero (idx : List Nat) (n : Nat) : filt idx (List.replicate n 0) = List.replicate n 0 := by
+  unfold filt
+  simp only [List.range_eq_range', List.length_replicate]
+  exact filt_aux_zero idx 0 n
+
+theorem axpy_zero (w : Rat) (sol : Vec) : axpy w (List.replicate sol.length 0) sol = sol := by
+  induction sol with
+  | nil => rfl
+  | cons b sol ih =>
+    simp only [List.length_cons, List.replicate_succ, axpy_cons, ih]
+    congr 1
+    ring
+
 end FeatModel.MG
